@@ -60,7 +60,7 @@ def gen_spec(rng, big=False):
                 kind = rng.choice(have)
             if not any((x['kind'], x['source'], x['target']) == (kind, a['name'], b['name']) for x in rels):
                 later.append({'kind': kind, 'source': a['name'], 'target': b['name']})
-        ets.append({'name': 't%d' % t, 'props': props, 'rels': rels, 'names': names, 'later': later})
+        ets.append({'name': 't%d' % t, 'props': props, 'rels': rels, 'names': names, 'later': later, 'later_prop': rng.random() < 0.4})
     events = []
     for _ in range(rng.randint(8, 14) if big else rng.randint(0, 7)):
         et = rng.choice(ets)
@@ -103,7 +103,10 @@ def build_ontology(spec, extra=False):
         if extra:
             for r in e.get('later', []):
                 et.create_relation(r['kind'], r['source'], r['target'])
-            if e.get('later'):
+            if e.get('later_prop'):
+                # the upgrade also brings a property that is associated with a concept
+                et.create_property('px', 'oa').make_optional().identifies('ca', 5, 128)
+            if e.get('later') or e.get('later_prop'):
                 et.set_version(2)
     return o
 
@@ -262,7 +265,7 @@ def f2q(x):
     return [str(q.numerator), str(q.denominator)]
 
 
-def run(spec, order, min_conf, max_depth, upgrade_at=None, mine_at=None):
+def run(spec, order, min_conf, max_depth, upgrade_at=None, mine_at=None, refuse_first=False):
     from edxml.miner.knowledge import KnowledgeBase
     from edxml.miner import Miner
     from edxml.miner.node import EventObjectNode
@@ -281,6 +284,8 @@ def run(spec, order, min_conf, max_depth, upgrade_at=None, mine_at=None):
     m = Miner(kb)
     m.add_ontology(o)
     events = [spec['events'][i] for i in order]
+    by_name = {e['name']: e for e in spec['ets']}
+    late_values = []
     old = signal.signal(signal.SIGALRM, _alarm)
     signal.alarm(WATCHDOG_S)
     tracer = SearchTracer()
@@ -289,7 +294,20 @@ def run(spec, order, min_conf, max_depth, upgrade_at=None, mine_at=None):
             for k, ev in enumerate(events):
                 if upgrade_at is not None and k == upgrade_at:
                     # the ontology is upgraded in mid stream: event types gain universals relations
+                    if refuse_first:
+                        # ... first offered together with a conflicting definition of the event source: refused half way
+                        from edxml.error import EDXMLOntologyValidationError
+                        bad = build_ontology(spec, extra=True)
+                        bad.get_event_source('/s/').set_description('described differently')
+                        try:
+                            m.add_ontology(bad)
+                        except EDXMLOntologyValidationError:
+                            pass
                     m.add_ontology(build_ontology(spec, extra=True))
+                if upgrade_at is not None and k >= upgrade_at and by_name[ev['type']].get('later_prop'):
+                    # events of the upgraded type carry an object of the new property
+                    ev = dict(ev, props=ev['props'] + [['px', ['vx%d' % k]]])
+                    late_values.append('vx%d' % k)
                 if mine_at is not None and k == mine_at:
                     # mining in between: more events arrive afterwards and everything is mined again
                     m.mine(None, min_conf, max_depth)
@@ -359,7 +377,8 @@ def run(spec, order, min_conf, max_depth, upgrade_at=None, mine_at=None):
         return {'skipped': False, 'outcome': 'inspect-raised:' + type(ex).__name__ + ':' + str(ex)[:100]}
     return {'skipped': False, 'outcome': 'ok', 'instances': insts, 'taints': taints, 'uncovered': uncovered, 'json_same': json_same, 'titles_same': titles_same,
             'universals': uni, 'noisy_checks': noisy_checks, 'taint_checks': taint_checks, 'n_nodes': len(nodes),
-            'passes': tracer.passes, 'picks': tracer.picks, 'trace_problem': tracer.problem}
+            'passes': tracer.passes, 'picks': tracer.picks, 'trace_problem': tracer.problem,
+            'late_missing': sorted(v for v in late_values if not any(a['value'] == v for inst in insts for a in inst['attrs']))}
 
 
 class C20(Property):
@@ -416,6 +435,7 @@ class C20(Property):
             c = {'spec': spec, 'order': order, 'min_conf': rng.choice(MIN_CONF), 'max_depth': rng.choice(MAX_DEPTH)}
             if order and rng.random() < 0.5:
                 c['upgrade_at'] = rng.randrange(len(order))
+                c['refuse_first'] = rng.random() < 0.5
             if len(order) >= 2 and rng.random() < 0.3:
                 c['mine_at'] = rng.randrange(1, len(order))
             if i % 10 == 4:
@@ -439,7 +459,8 @@ class C20(Property):
         return ['jsonDropsNamingPriority'] if case.get('title_probe') else []
 
     def observe(self, case):
-        r = run(case['spec'], case['order'], case['min_conf'], case['max_depth'], case.get('upgrade_at'), case.get('mine_at'))
+        r = run(case['spec'], case['order'], case['min_conf'], case['max_depth'], case.get('upgrade_at'), case.get('mine_at'),
+                case.get('refuse_first', False))
         if r.get('skipped') or r.get('outcome') != 'ok':
             return r
         # what is compared with the model: the arithmetic on the real values (rounded) and the universals
@@ -562,6 +583,8 @@ class C20(Property):
         for nid, t in r['taints']:
             if not unit(t):
                 return '%s: node %s has taint %s' % (what, nid, t)
+        if r.get('late_missing') and case['min_conf'] <= 1.0:
+            return '%s: objects of the concept-associated property that an ontology upgrade brought are in no instance: %s' % (what, r['late_missing'][:4])
         if r['uncovered'] and case['min_conf'] <= 1.0:
             return '%s: concept-associated event objects in no instance: %s' % (what, r['uncovered'][:4])
         if case.get('title_probe'):
